@@ -394,6 +394,8 @@ func (r *run) step(op map[string]any, ln *Line) {
 		}
 	case "RotateWait":
 		r.rotateWait(ln)
+	case "ConnectFlip":
+		r.connectFlip(op, ln)
 	case "Connect":
 		r.connect(op, ln)
 	case "Dial":
@@ -575,6 +577,116 @@ func (r *run) rotateNode(op map[string]any, ln *Line) {
 	}
 	srv.Nodes[k] = &hs.Node{Name: k, Storage: newStore, Creds: nc, Fresh: true}
 	ln.Res = "ok"
+}
+
+// connectFlip sends the honest authentication request of node k with one bit of the marshalled request
+// flipped, and RE-PROJECTS what was actually sent onto the abstract client record, so that the trace spec
+// judges the mutated request itself (undecodable mutations become a Malformed step).
+func (r *run) connectFlip(op map[string]any, ln *Line) {
+	srv := r.srv
+	w := srv.W
+	k := s(op, "k")
+	n, ok := srv.Nodes[k]
+	if !ok || len(n.Creds.CertificateBundles) != 2 {
+		ln.Res = "skip"
+		return
+	}
+	base := hs.Client{Kind: "auth", K: k, Ck: k, Chain: "b0", Priv: true, Nsig: k, St: "ok", Pref: "cur"}
+	if r.cfg.Nidl && int(numOf(op, "bit"))%2 == 0 {
+		base.Nid = "N-" + k
+	}
+	protos0, req0, err := srv.BuildAuthProtos(base)
+	_ = protos0
+	if err != nil {
+		ln.Res, ln.Err = "harness-error", err.Error()
+		return
+	}
+	raw, _ := proto.Marshal(req0)
+	bit := int(numOf(op, "bit")) % (len(raw) * 8)
+	mut := append([]byte(nil), raw...)
+	mut[bit/8] ^= 1 << (bit % 8)
+	protos, _ := nodetls.BreakIntoNextProtos(nodeenrollment.AuthenticateNodeNextProtoV1Prefix, base64.RawStdEncoding.EncodeToString(mut))
+	roots, rerr := types.LoadRootCertificates(w.Ctx, w.Inner, w.StorageOpts()...)
+	if rerr == nil {
+		id, _ := nodeenrollment.KeyIdFromPkix(roots.Current.PublicKeyPkix)
+		protos = append(protos, nodeenrollment.CertificatePreferenceV1Prefix+id)
+	}
+	cert, _ := srv.ClientCert(base)
+	// re-projection
+	got := new(types.GenerateServerCertificatesRequest)
+	newOp := map[string]any{"bit": bit}
+	if proto.Unmarshal(mut, got) != nil {
+		newOp["op"], newOp["cls"], newOp["pfx"] = "Malformed", "flipUndecodable", "auth"
+	} else {
+		name := w.CertName(got.CertificatePublicKeyPkix)
+		if _, ok := w.CertKeys[name]; !ok || !contains(r.cfg.CertKeys, name) {
+			name = "kx"
+		}
+		if len(got.CertificatePublicKeyPkix) == 0 {
+			name = world.None // the request names no key at all
+		}
+		signer := "kx"
+		if len(got.NonceSignature) == 0 {
+			signer = world.None
+		}
+		for _, cn := range r.cfg.CertKeys {
+			if ck, ok := w.CertKeys[cn]; ok && len(got.Nonce) > 0 && ed25519.Verify(ck.Pub, got.Nonce, got.NonceSignature) {
+				signer = cn
+			}
+		}
+		stt := world.None
+		if len(got.ClientState) > 0 {
+			stt = "forged"
+			if len(got.ClientStateSignature) == 0 {
+				stt = "unsigned"
+			} else if ck, ok := w.CertKeys[signer]; ok && ed25519.Verify(ck.Pub, got.ClientState, got.ClientStateSignature) {
+				stt = "ok"
+			}
+			// state bytes that no longer parse make the server refuse: treat as forged
+			if proto.Unmarshal(got.ClientState, new(structpb.Struct)) != nil {
+				stt = "forged"
+			}
+		}
+		nid := world.None
+		switch got.NodeId {
+		case "":
+		case "N-" + name:
+			nid = "own"
+		case "N-" + k:
+			nid = "other"
+		default:
+			nid = "bogus"
+		}
+		if len(got.Nonce) == 0 {
+			signer = world.None // an empty nonce is refused outright
+		}
+		newOp["op"], newOp["kind"], newOp["k"], newOp["ck"], newOp["chain"], newOp["priv"] = "Connect", "auth", name, k, "b0", true
+		newOp["nsig"], newOp["stt"], newOp["skip"], newOp["nid"], newOp["pref"], newOp["cn"] = signer, stt, got.SkipVerification, nid, "cur", got.CommonName != ""
+	}
+	ln.Op = newOp
+	res, cerr := srv.Exchange(protos, cert)
+	r.record(ln, res)
+	ln.Obs.ClientErr = cerr
+	ln.Res = res.Kind
+	if newOp["op"] == "Malformed" {
+		ln.Res = summarize(ln.Obs.Kinds)
+	}
+}
+
+func contains(l []string, x string) bool {
+	for _, y := range l {
+		if y == x {
+			return true
+		}
+	}
+	return false
+}
+
+func numOf(m map[string]any, k string) float64 {
+	if v, ok := m[k].(float64); ok {
+		return v
+	}
+	return 0
 }
 
 func rawCreds(srv *hs.Server, n *hs.Node) []byte {
